@@ -52,6 +52,30 @@ func addTarget(t *Target) {
 	targetByName[t.Name] = t
 }
 
+// failsAgain runs a lazy accessor. When it fails, the same access is tried once more on the same object: it has
+// to fail again (the object must not hand out, on a later access, what it could not decode on the first one). If the
+// second access returns normally failsAgain returns normally too - the input then counts as accepted, which the
+// truncation / corruption oracles report.
+func failsAgain(access func()) {
+	defer func() {
+		if r := recover(); r != nil {
+			second := true
+			func() {
+				defer func() {
+					if recover() != nil {
+						second = false
+					}
+				}()
+				access()
+			}()
+			if !second {
+				panic(r)
+			}
+		}
+	}()
+	access()
+}
+
 func encodePack(sp *gpack.Spec, p pack.Pack) []byte {
 	if sp.Registered {
 		return append([]byte(nil), pack.ToBytesPack(p)...)
@@ -145,7 +169,7 @@ func init() {
 				// lazily decoded parts belong to the decode
 				switch x := q.(type) {
 				case *pack.StatGeneralPack:
-					x.GetDataTable()
+					failsAgain(func() { x.GetDataTable() })
 				}
 			}}
 		addTarget(t)
@@ -157,12 +181,20 @@ func init() {
 		from string
 		blob func(p pack.Pack) []byte
 	}{
-		{"records:StatSqlPack", func(b []byte) { p := pack.NewStatSqlPack(); p.Records = b; p.GetRecords() }, "StatSqlPack", func(p pack.Pack) []byte { return p.(*pack.StatSqlPack).Records }},
-		{"records:StatHttpcPack", func(b []byte) { p := pack.NewStatHttpcPack(); p.Records = b; p.GetRecords() }, "StatHttpcPack", func(p pack.Pack) []byte { return p.(*pack.StatHttpcPack).Records }},
-		{"records:StatErrorPack", func(b []byte) { p := pack.NewStatErrorPack(); p.Records = b; p.GetRecords() }, "StatErrorPack", func(p pack.Pack) []byte { return p.(*pack.StatErrorPack).Records }},
-		{"records:StatTransactionPack", func(b []byte) { p := pack.NewStatTransactionPack(); p.Records = b; p.GetRecords() }, "StatTransactionPack", func(p pack.Pack) []byte { return p.(*pack.StatTransactionPack).Records }},
-		{"records:StatTransactionPack1", func(b []byte) { p := pack.NewStatTransactionPack1(); p.Records = b; p.GetRecords() }, "StatTransactionPack1", func(p pack.Pack) []byte { return p.(*pack.StatTransactionPack1).Records }},
-		{"records:SMDownCheckPack", func(b []byte) { p := pack.NewSMDownCheckPack(); p.Records = b; p.GetRecords() }, "SMDownCheckPack", func(p pack.Pack) []byte { return p.(*pack.SMDownCheckPack).Records }},
+		{"records:StatSqlPack", func(b []byte) { p := pack.NewStatSqlPack(); p.Records = b; failsAgain(func() { p.GetRecords() }) }, "StatSqlPack", func(p pack.Pack) []byte { return p.(*pack.StatSqlPack).Records }},
+		{"records:StatHttpcPack", func(b []byte) { p := pack.NewStatHttpcPack(); p.Records = b; failsAgain(func() { p.GetRecords() }) }, "StatHttpcPack", func(p pack.Pack) []byte { return p.(*pack.StatHttpcPack).Records }},
+		{"records:StatErrorPack", func(b []byte) { p := pack.NewStatErrorPack(); p.Records = b; failsAgain(func() { p.GetRecords() }) }, "StatErrorPack", func(p pack.Pack) []byte { return p.(*pack.StatErrorPack).Records }},
+		{"records:StatTransactionPack", func(b []byte) {
+			p := pack.NewStatTransactionPack()
+			p.Records = b
+			failsAgain(func() { p.GetRecords() })
+		}, "StatTransactionPack", func(p pack.Pack) []byte { return p.(*pack.StatTransactionPack).Records }},
+		{"records:StatTransactionPack1", func(b []byte) {
+			p := pack.NewStatTransactionPack1()
+			p.Records = b
+			failsAgain(func() { p.GetRecords() })
+		}, "StatTransactionPack1", func(p pack.Pack) []byte { return p.(*pack.StatTransactionPack1).Records }},
+		{"records:SMDownCheckPack", func(b []byte) { p := pack.NewSMDownCheckPack(); p.Records = b; failsAgain(func() { p.GetRecords() }) }, "SMDownCheckPack", func(p pack.Pack) []byte { return p.(*pack.SMDownCheckPack).Records }},
 		{"records:StatServicePack", func(b []byte) {
 			in := wio.NewDataInputX(b)
 			n := int(in.ReadShort())
@@ -187,6 +219,29 @@ func init() {
 			},
 			Decode: rt.get})
 	}
+	// the column table of a general statistics pack travels as an inner block that is parsed on first access
+	addTarget(&Target{Name: "table:StatGeneralPack",
+		Build: func(s *rfl.Stream) []byte {
+			for {
+				p := gpack.ByName["StatGeneralPack"].Build(s, 0)
+				q := pack.ToPack(pack.ToBytesPack(p)).(*pack.StatGeneralPack)
+				b := rfl.Field(q, "dataBytes").Bytes()
+				if len(b) > 2 || s.Exhausted() {
+					if len(b) == 0 {
+						return []byte{0, 0}
+					}
+					return append([]byte(nil), b...)
+				}
+			}
+		},
+		// an empty block is a complete message: a pack without columns carries no table at all
+		Complete: func(m []byte) map[int]bool { return map[int]bool{0: true} },
+		Decode: func(b []byte) {
+			p := pack.NewStatGeneralPack()
+			rfl.Field(p, "dataBytes").SetBytes(b)
+			rfl.Field(p, "dataBytesSize").SetInt(int64(len(b)))
+			failsAgain(func() { p.GetDataTable() })
+		}})
 	addTarget(&Target{Name: "records:ZipPack",
 		Build: func(s *rfl.Stream) []byte {
 			// payload preceded by its record count (decimal) so that Decode can rebuild the pack
